@@ -22,6 +22,8 @@ INDEXES = {
     "full": {("f",): ("file", "x"), ("d",): ("dir", D), ("e", "s"): ("dir", E), ("e", "g"): ("file", "y")},
     "dirs": {("d",): ("dir", D), ("e", "s"): ("dir", E)},
     "one": {("f",): ("file", "x"), ("d",): ("dir", D)},
+    # a storage prefix (e,s) that lies strictly *inside* a directory entry given only as a directory object
+    "inside": {("f",): ("file", "x"), ("e",): ("dir", {"s/k": "x", "s/m": "w", "g": "y"})},
 }
 
 
@@ -40,6 +42,21 @@ def reachable(entry):
     return out
 
 
+def expanded(entries):
+    """[(full key, oid, bytes)] for every object reachable from the index: a directory object sits at its
+    entry's key, each file it lists at entry key + relative path (that key decides its storage)."""
+    out = []
+    for key, (kind, v) in entries.items():
+        if kind == "file":
+            out.append((key, MD5[v], CONTENTS[v]))
+        else:
+            lst = tree_listing(v)
+            out.append((key, ref.tree_oid(lst), ref.tree_bytes(lst)))
+            for rel, c in v.items():
+                out.append((key + tuple(rel.split("/")), MD5[c], CONTENTS[c]))
+    return out
+
+
 def designated(placement, key, role):
     """Longest prefix of key that has the role set; independent per role."""
     best = None
@@ -52,6 +69,24 @@ def designated(placement, key, role):
 
 def _k(p):
     return "/".join(p)
+
+
+def cause_of(placement, key):
+    """Which structural situation of the storage mapping an entry key is in (see known findings).
+
+    collect() walks the storage prefixes in registration order with their *resolved* (fallen-back) roles and
+    groups them by remote only: the first prefix of a group decides the cache for the whole group.
+    """
+    pc = max((p for p in PREFIXES if key[: len(p)] == p and placement[_k(p)]["cache"]), key=len)
+    pr = max((p for p in PREFIXES if key[: len(p)] == p and placement[_k(p)]["remote"]), key=len)
+    if pc != pr:
+        return "cache-and-remote-designated-by-different-prefixes"
+    my_remote, my_cache = designated(placement, key, "remote"), designated(placement, key, "cache")
+    for q in PREFIXES:
+        if placement[_k(q)]["cache"] or placement[_k(q)]["remote"]:
+            if designated(placement, q, "remote") == my_remote and designated(placement, q, "cache") != my_cache:
+                return "remote-shared-by-prefixes-with-different-caches"
+    return "other"
 
 
 def placements():
@@ -81,7 +116,7 @@ class Lab:
                 os.makedirs(cfg["tmp_dir"], exist_ok=True)
             self.stores[r] = HashFileDB(f, f.store_root, **cfg)
 
-    def make_index(self, iname, placement, caches=None):
+    def make_index(self, iname, placement, caches=None, order="short-first"):
         from dvc_data.hashfile.hash_info import HashInfo
         from dvc_data.hashfile.meta import Meta
         from dvc_data.index import DataIndex, DataIndexEntry, ObjectStorage
@@ -95,7 +130,7 @@ class Lab:
             else:
                 idx[key] = DataIndexEntry(key=key, meta=Meta(isdir=True),
                                           hash_info=HashInfo("md5", ref.tree_oid(tree_listing(v))))
-        for p in PREFIXES:
+        for p in (PREFIXES if order == "short-first" else list(reversed(PREFIXES))):
             cfg = placement[_k(p)]
             if cfg.get("cache"):
                 idx.storage_map.add_cache(ObjectStorage(p, caches[cfg["cache"]]))
@@ -104,7 +139,7 @@ class Lab:
         return idx
 
 
-def one_exec(iname, placement, fail):
+def one_exec(iname, placement, fail, order="short-first"):
     from dvc_data.index.checkout import apply, compare
     from dvc_data.index.collect import collect
     from dvc_data.index.fetch import fetch
@@ -116,11 +151,15 @@ def one_exec(iname, placement, fail):
     with World() as w:
         lab = Lab(w)
         # populate the cache designated for each entry
-        for key, ent in entries.items():
-            c = designated(placement, key, "cache")
-            for oid, data in reachable(ent).items():
-                put_raw(lab.stores[c], oid, data)
-        idx = lab.make_index(iname, placement)
+        for key, oid, data in expanded(entries):
+            put_raw(lab.stores[designated(placement, key, "cache")], oid, data)
+        # the cache that holds a directory object also holds the files it lists (caches are closed), even
+        # when a storage prefix inside the directory designates another cache for some of them
+        for key, (kind, v) in entries.items():
+            if kind == "dir":
+                for c in v.values():
+                    put_raw(lab.stores[designated(placement, key, "cache")], MD5[c], CONTENTS[c])
+        idx = lab.make_index(iname, placement, order=order)
         plans = {}
         for r, f in lab.ffs.items():
             plans[r] = f.plan = Plan(fail_oids=fail)
@@ -143,28 +182,26 @@ def one_exec(iname, placement, fail):
         def remote_complete():
             miss = []
             snap = {r: objects_only(store_snapshot(lab.stores[r].path)) for r in ("R1", "R2")}
-            for key, ent in entries.items():
+            for key, oid, data in expanded(entries):
                 r = designated(placement, key, "remote")
-                for oid, data in reachable(ent).items():
-                    if oid not in snap[r] or snap[r][oid][0] != data:
-                        miss.append((key, r, oid[:8]))
+                if oid not in snap[r] or snap[r][oid][0] != data:
+                    miss.append((key, r, oid[:8]))
             return miss
 
         miss = remote_complete()
         if not fail:
             if miss:
                 causes = {}
+
+                allkeys = [k for k, _o, _d in expanded(entries)]
                 for key, _r, _o in miss:
-                    pc = max((p for p in PREFIXES if key[: len(p)] == p and placement[_k(p)]["cache"]), key=len)
-                    pr = max((p for p in PREFIXES if key[: len(p)] == p and placement[_k(p)]["remote"]), key=len)
-                    if pc != pr:
-                        cause = "cache-and-remote-designated-by-different-prefixes"
-                    elif any(q != pr and placement[_k(q)]["remote"] == placement[_k(pr)]["remote"]
-                             and placement[_k(q)]["cache"] != placement[_k(pr)]["cache"]
-                             for q in PREFIXES):
-                        cause = "remote-shared-by-prefixes-with-different-caches"
-                    else:
-                        cause = "other"
+                    cause = cause_of(placement, key)
+                    if cause == "other":
+                        # a directory object is withheld when files it lists cannot be found: inherit their cause
+                        kids = [cause_of(placement, k) for k in allkeys if len(k) > len(key) and k[: len(key)] == key]
+                        known = sorted(c for c in kids if c != "other")
+                        if known:
+                            cause = known[0]
                     causes.setdefault(cause, []).append((key, _r, _o))
                 for cause, ms in sorted(causes.items()):
                     viol.append((f"object-not-pushed-to-designated-remote/{cause}",
@@ -187,7 +224,7 @@ def one_exec(iname, placement, fail):
             for f in lab.ffs.values():
                 f.plan = Plan()
             try:
-                idx_r = lab.make_index(iname, placement)
+                idx_r = lab.make_index(iname, placement, order=order)
                 push(collect([idx_r], "remote", push=True))
             except Exception as e:  # noqa: BLE001
                 viol.append((f"retry-push-raises-{type(e).__name__}", repr(e)))
@@ -200,7 +237,7 @@ def one_exec(iname, placement, fail):
             return viol, info
         # fetch into empty caches
         fresh = {c: make_odb("local", w.p("fresh", c)) for c in ("C1", "C2")}
-        idx2 = lab.make_index(iname, placement, caches=fresh)
+        idx2 = lab.make_index(iname, placement, caches=fresh, order=order)
         try:
             fetched, ffailed = fetch(collect([idx2], "remote"))
         except Exception as e:  # noqa: BLE001
@@ -222,18 +259,22 @@ def one_exec(iname, placement, fail):
         for oid, data in got_all.items():
             if oid in want_all and data != want_all[oid]:
                 viol.append(("fetched-object-has-wrong-bytes", oid[:8]))
-        for key, ent in entries.items():
+        fmiss = {}
+        for key, oid, _data in expanded(entries):
             c = designated(placement, key, "cache")
-            for oid in reachable(ent):
-                if oid not in fsnap[c]:
-                    viol.append(("object-not-fetched-into-designated-cache", f"{key} {c} {oid[:8]}"))
+            if oid not in fsnap[c]:
+                fmiss.setdefault(cause_of(placement, key), []).append((key, c, oid[:8]))
+        for cause, ms in sorted(fmiss.items()):
+            viol.append((f"object-not-fetched-into-designated-cache/{cause}", f"{ms} placement={placement}"))
+        if fmiss:
+            return viol, info  # a checkout from an incomplete cache says nothing new
         if ffailed:
             viol.append(("fault-free-fetch-reports-failures", f"{ffailed}"))
         new_c = sum(len(s) for s in fsnap.values())
         if fetched != new_c:
             viol.append(("fetched-count-differs-from-objects-that-arrived", f"fetched={fetched} arrived={new_c}"))
         # checkout from the fetched caches reproduces the data
-        idx3 = lab.make_index(iname, placement, caches=fresh)
+        idx3 = lab.make_index(iname, placement, caches=fresh, order=order)
         out = w.p("out")
         errs = []
         try:
@@ -273,12 +314,13 @@ def run_case(case):
                 res["vac"]["fault_rounds_skipped_on_defective_placement"] = res["vac"].get(
                     "fault_rounds_skipped_on_defective_placement", 0) + 1
                 continue
-        for fail in fails:
-            viol, info = one_exec(iname, placement, list(fail))
+        orders = ["short-first", "long-first"] if not case["faults"] else ["short-first"]
+        for fail, order in [(f, o) for f in fails for o in orders]:
+            viol, info = one_exec(iname, placement, list(fail), order)
             res["n"] += 1
             res["trans"] += 4
             res["vac"]["faults_fired"] += info["fired"]
-            d = digest_obj((iname, placement, fail))
+            d = digest_obj((iname, placement, fail, order))
             res["states"].append(d)
             rs = {placement[k]["remote"] for k in placement if placement[k]["remote"]}
             if len(rs) > 1:
@@ -290,7 +332,8 @@ def run_case(case):
             for sig, detail in viol:
                 if sig not in sigs:
                     sigs.add(sig)
-                    res["viol"].append((sig, detail, {"index": iname, "placement": placement, "fail": list(fail)}))
+                    res["viol"].append((sig, detail, {"index": iname, "placement": placement, "fail": list(fail),
+                                                      "order": order}))
     res["outcomes"] = sorted(res["outcomes"])[:40]
     res["nontrivial"] = sorted(res["nontrivial"])
     if case.get("i") == 100:
@@ -299,7 +342,7 @@ def run_case(case):
 
 
 def replay(case):
-    return one_exec(case["index"], case["placement"], case["fail"])[0]
+    return one_exec(case["index"], case["placement"], case["fail"], case.get("order", "short-first"))[0]
 
 
 def run(ctx):
